@@ -84,7 +84,27 @@ func (c *Ctx) TimeLeft() bool {
 	if c.MaxRuns > 0 && c.Res.Runs >= c.MaxRuns {
 		return false
 	}
+	// Runs that end in a simulated process stop (or cannot close their database after an injected fault) leave
+	// goroutines blocked inside the code under test, and with them their buffers. The worker stops early when it has
+	// grown too much; the driver starts a fresh process for the rest of the budget.
+	if c.Res.Runs%16 == 0 && rssMB() > int(envInt("VERIF_RSS_LIMIT_MB", 1500)) {
+		c.Res.Counters["worker-stopped-early-for-memory"] = 1
+		return false
+	}
 	return time.Now().Before(c.Deadline)
+}
+
+func rssMB() int {
+	b, err := os.ReadFile("/proc/self/statm")
+	if err != nil {
+		return 0
+	}
+	f := strings.Fields(string(b))
+	if len(f) < 2 {
+		return 0
+	}
+	pages, _ := strconv.Atoi(f[1])
+	return pages * os.Getpagesize() / (1 << 20)
 }
 
 func (c *Ctx) Count(name string, n int) {
